@@ -233,10 +233,9 @@ package ro
 //@ func (*observableImpl).SubscribeWithContext
 //@   props C01 C02 C03 C07 C14
 //@   panicforks
-//@   alias gate=NewSubscriberWithConcurrencyMode()
-//@   track call.NewSubscriberWithConcurrencyMode callfn.subscribe NewSubscriberWithConcurrencyMode().* call.newObservableError
+//@   track call.NewSubscriberWithConcurrencyMode callfn.subscribe subscription.*
 //@   ensures [destination-is-wrapped-in-a-gate-of-the-observable-mode|C01,C02] arg(call.NewSubscriberWithConcurrencyMode, 0) == destination && arg(call.NewSubscriberWithConcurrencyMode, 1) == s.mode
 //@   ensures [subscribe-sees-only-the-gate|C01] arg(callfn.subscribe, 0) == ctx && arg(callfn.subscribe, 1) == res(call.NewSubscriberWithConcurrencyMode)
-//@   ensures [teardown-registered|C03,C14] !panicked(subscribe) && !caught ==> trace(call.NewSubscriberWithConcurrencyMode(_, _), callfn.subscribe(_, _), gate.Add(res(callfn.subscribe)))
-//@   ensures [panic-becomes-error-then-release|C07] panicked(subscribe) ==> trace(call.NewSubscriberWithConcurrencyMode(_, _), callfn.subscribe(_, _), gate.ErrorWithContext(ctx, newObservableError(recoverValueToError(panicval(subscribe)))), gate.Unsubscribe())
+//@   ensures [teardown-registered|C03,C14] !panicked(subscribe) && !caught ==> trace(call.NewSubscriberWithConcurrencyMode(_, _), callfn.subscribe(_, _), subscription.Add(res(callfn.subscribe)))
+//@   ensures [panic-becomes-error-then-release|C07] panicked(subscribe) ==> trace(call.NewSubscriberWithConcurrencyMode(_, _), callfn.subscribe(_, _), subscription.ErrorWithContext(ctx, newObservableError(recoverValueToError(panicval(subscribe)))), subscription.Unsubscribe())
 //@   ensures [returns-the-gate|C01] result == res(call.NewSubscriberWithConcurrencyMode)
